@@ -44,6 +44,35 @@ pub fn universe() -> &'static Universe {
     U.get_or_init(|| {
         let mut u = Universe::labelled(3, 12, 3, 3);
         u.types.push(make_type_id("verif/program"));
+        // Carrier ids are chosen by a deterministic label search so that work-unit sharding
+        // (shard = first id byte) both collides and separates them: carriers 4,5 share a shard,
+        // 6,7 share another, 8..11 are pairwise distinct and distinct from those.
+        let shard = |n: &warp_core::NodeId| n.0[0];
+        let mut pool: Vec<warp_core::NodeId> = (0..4000)
+            .map(|j| warp_core::make_node_id(&format!("verif/p{j}")))
+            .collect();
+        let mut take = |pred: &dyn Fn(&warp_core::NodeId) -> bool| -> warp_core::NodeId {
+            let i = pool.iter().position(|n| pred(n)).expect("label search");
+            pool.remove(i)
+        };
+        let c4 = take(&|_| true);
+        let s45 = shard(&c4);
+        let c5 = take(&|n| shard(n) == s45);
+        let c6 = take(&|n| shard(n) != s45);
+        let s67 = shard(&c6);
+        let c7 = take(&|n| shard(n) == s67);
+        let mut used = vec![s45, s67];
+        let mut rest = Vec::new();
+        for _ in 0..4 {
+            let u2 = used.clone();
+            let c = take(&|n| !u2.contains(&shard(n)));
+            used.push(shard(&c));
+            rest.push(c);
+        }
+        let carriers = [c4, c5, c6, c7, rest[0], rest[1], rest[2], rest[3]];
+        for (i, c) in carriers.iter().enumerate() {
+            u.nodes[4 + i] = *c;
+        }
         u
     })
 }
@@ -729,3 +758,9 @@ pub fn root_instance() -> RefInstance {
 }
 pub mod tick;
 pub mod fixture;
+pub mod pool;
+
+/// The interpreter's executor as a plain `ExecuteFn` (for `ExecItem::new`).
+pub fn executor_fn() -> warp_core::ExecuteFn {
+    executor
+}
